@@ -1558,7 +1558,7 @@ func Run(c *ev.Ctx) int {
 
 	stalls.start()
 	fixed := fixedFilters()
-	nRounds := c.Pick(10, 180)
+	nRounds := c.Pick(10, 400)
 	scen := c.Pick(5, 10)
 	type job struct {
 		cfg   roundCfg
